@@ -52,6 +52,10 @@ fn main() {
         out_line(&format!("{}", history::digest_of_reference()));
         std::process::exit(0);
     }
+    if args.len() >= 3 && args[2] == "--probe-stability" {
+        kernel::probe_stability();
+        std::process::exit(0);
+    }
     if args.len() >= 4 && args[2] == "--probe-gamma" {
         // diagnostic: scan p = (i+1/2)/n for one shape and report Err / non-positive results by quantile domain
         let a: f64 = args[3].parse().unwrap();
